@@ -7,7 +7,7 @@ RULE = ("macro events (local call + peer answer, or peer first + application tou
 
 
 def gens(tier):
-    return [("endpoint/LifeGen", "endpoint/LifeGen_%s.cfg" % n) for n in (["b", "da", "lb", "lda"] if tier == "thorough" else ["a", "b", "la", "lb"])]
+    return [("endpoint/LifeGen", "endpoint/LifeGen_%s.cfg" % n) for n in (["b", "da", "lb", "lda", "x"] if tier == "thorough" else ["a", "b", "la", "lb", "x"])]
 
 
 def check_c13(pid, tier, replay):
